@@ -186,6 +186,8 @@ def rejection_key(r, lines_of_shard=None):
         return "ql:Next:" + ",".join(t["k"] for t in ev.get("wire", []))
     if k == "DoReturn":
         return "ql:DoReturn:err=%s,closed=%s" % (ev.get("err"), ev.get("closed"))
+    if k == "Stuck" and "s" in ev:
+        return "ql:Stuck:S=%s,R=%s,W=%s%s" % (ev.get("s"), ev.get("r"), ev.get("w"), ",cancelled" if ev.get("callerCancelled") else "")
     return "ql:" + k
 
 
@@ -208,7 +210,8 @@ def replay_scenario(begin):
     c = dict(begin["cfg"])
     c.pop("wbreak", None)
     return {"id": begin["id"] + "#re", "cfg": c, "breakAt": begin.get("breakAt", -1), "sched": begin.get("sched", ""),
-            "rev": begin.get("rev", 54460), "compression": begin.get("compression", "disabled"), "rowsPer": begin.get("rowsPer", 0)}
+            "rev": begin.get("rev", 54460), "compression": begin.get("compression", "disabled"), "rowsPer": begin.get("rowsPer", 0),
+            "breakBytes": begin.get("breakBytes", 0), "drainBreak": begin.get("drainBreak", False)}
 
 
 def check_and_report(run, pid, drv, scenarios, name, keyprefix=""):
@@ -232,8 +235,12 @@ def check_and_report(run, pid, drv, scenarios, name, keyprefix=""):
             t = dict(sc)
             t["id"] = "%s~%d" % (sc.get("id"), k)
             reps.append(t)
-        re_lines, _ = run_scenarios(pid, drv, reps, name=name + "-rerun", nproc=1)
+        # (two first: a deterministic rejection shows at once; the other eight only if those two were accepted)
+        re_lines, _ = run_scenarios(pid, drv, reps[:2], name=name + "-rerun", nproc=1)
         v2 = validate(pid, re_lines, name="tv-" + name + "-rerun")
+        if not v2.errors and not v2.rejections:
+            re_lines, _ = run_scenarios(pid, drv, reps[2:], name=name + "-rerun", nproc=1)
+            v2 = validate(pid, re_lines, name="tv-" + name + "-rerun")
         if v2.errors:
             raise V.Inconclusive("re-run validation tool errors: " + "\n".join(v2.errors)[:2000])
         if not v2.rejections:
